@@ -11,6 +11,7 @@
 
 mod common;
 mod credit;
+mod frame;
 mod peer;
 mod recvcredit;
 mod session;
@@ -62,6 +63,7 @@ fn main() {
     match args[1].as_str() {
         "session" => session::main(&opts),
         "credit" => credit::main(&opts),
+        "frame" => frame::main(&opts),
         "recvcredit" => recvcredit::main(&opts),
         other => {
             eprintln!("unknown module {}", other);
